@@ -400,3 +400,183 @@ def build_T8f(tree):
 
 
 TARGETS['T8f'] = {'file': 'seg/sop.py', 'build': build_T8f}
+
+
+# ---------------------------------------------------------------- effect summaries (purity of reads)
+_STORED_ATTRS = ('self.pixel_array', 'self._pixel_array', 'self.PixelData')
+_STORED_CALLS = ('self.get_stored_frame', 'self.get_stored_frames', 'self.get_frame', 'self.get_frames')
+_VIEW_METHODS = ('reshape', 'view', 'squeeze', 'ravel', 'transpose', 'swapaxes', '__getitem__')
+_FRESH_METHODS = ('astype', 'flatten', 'copy', 'tolist', 'max', 'min', 'sum', 'all', 'any', 'item', 'tobytes')
+_FRESH_CALLS = ('np.zeros', 'np.ones', 'np.empty', 'np.eye', 'np.arange', 'np.maximum', 'np.minimum', 'np.isin', 'np.unique',
+                'np.logical_and', 'np.logical_or', 'np.any', 'np.all', 'np.setxor1d', 'np.array_equal', 'np.nonzero',
+                'np.dtype', 'np.concatenate', 'np.stack', 'np.iinfo', 'np.finfo', 'len', 'max', 'min', 'range', 'int', 'float',
+                'bool', 'tuple', 'isinstance', 'decode_frame', 'apply_lut', 'apply_voi_window', '_get_unsigned_dtype',
+                'ValueError', 'RuntimeError', 'TypeError', 'IndexError', 'nullcontext')
+_VIEW_CALLS = ('np.asarray', 'np.atleast_1d', 'np.atleast_2d', 'np.atleast_3d', 'np.squeeze', 'np.reshape', 'np.transpose')
+
+
+def _names(node):
+    return sorted({n.id for n in ast.walk(node) if isinstance(n, ast.Name)})
+
+
+def _classify(e, fresh_self_calls):
+    """Right-hand side -> ('stored' | 'view' | 'unknown' | 'fresh', names)."""
+    txt = ast.unparse(e)
+    if isinstance(e, (ast.Constant, ast.JoinedStr, ast.BinOp, ast.UnaryOp, ast.BoolOp, ast.Compare, ast.ListComp, ast.SetComp,
+                      ast.DictComp, ast.GeneratorExp, ast.Dict, ast.Set)):
+        return ('fresh', [])            # arithmetic / comparisons / comprehensions build new objects
+    if isinstance(e, ast.IfExp):
+        a, b = _classify(e.body, fresh_self_calls), _classify(e.orelse, fresh_self_calls)
+        order = ['fresh', 'view', 'unknown', 'stored']
+        kind = max(a[0], b[0], key=order.index)
+        return (kind, sorted(set(a[1]) | set(b[1])))
+    if isinstance(e, (ast.Tuple, ast.List)):
+        parts = [_classify(x, fresh_self_calls) for x in e.elts]
+        if all(p[0] == 'fresh' for p in parts):
+            return ('fresh', [])
+        if any(p[0] == 'stored' for p in parts):
+            return ('stored', [])
+        return ('unknown', sorted({n for p in parts for n in p[1]}))
+    if isinstance(e, ast.Name):
+        return ('view', [e.id])
+    if isinstance(e, ast.Attribute):
+        if txt in _STORED_ATTRS:
+            return ('stored', [])
+        if isinstance(e.value, ast.Name) and e.value.id != 'self' and e.attr in ('T', 'real', 'imag', 'flat'):
+            return ('view', [e.value.id])
+        return ('unknown', _names(e))
+    if isinstance(e, ast.Subscript):
+        base = _classify(e.value, fresh_self_calls)
+        if base[0] == 'fresh':
+            return ('fresh', [])        # indexing a new array
+        if base[0] == 'stored':
+            return ('stored', [])
+        return (base[0] if base[0] == 'view' else 'unknown', base[1])
+    if isinstance(e, ast.Call):
+        f = ast.unparse(e.func)
+        if f in _STORED_CALLS:
+            return ('stored', [])
+        if f in _FRESH_CALLS or f in fresh_self_calls:
+            return ('fresh', [])
+        if f in _VIEW_CALLS:
+            return ('view', _names(ast.Tuple(elts=list(e.args), ctx=ast.Load())))
+        if isinstance(e.func, ast.Attribute):
+            recv = _classify(e.func.value, fresh_self_calls)
+            if e.func.attr in _FRESH_METHODS:
+                return ('fresh', [])
+            if e.func.attr in _VIEW_METHODS:
+                return recv if recv[0] != 'fresh' else ('fresh', [])
+        return ('unknown', _names(e))
+    return ('unknown', _names(e))
+
+
+def _effects(fn, fresh_self_calls=()):
+    """Every statement of `fn` that binds or writes a name, in source order: (target base name, inplace?, rhs class, names)."""
+    out = []
+
+    def base_of(t):
+        while isinstance(t, (ast.Subscript, ast.Attribute)):
+            t = t.value
+        return t.id if isinstance(t, ast.Name) else None
+
+    def add_target(t, inplace, cls):
+        if isinstance(t, (ast.Tuple, ast.List)):
+            for x in t.elts:
+                add_target(x.value if isinstance(x, ast.Starred) else x, inplace, cls if cls[0] != 'view' else ('unknown', cls[1]))
+            return
+        b = base_of(t)
+        if b is None:
+            raise Unsupported('assignment target without a base name: ' + ast.unparse(t))
+        out.append((b, inplace or not isinstance(t, ast.Name), cls[0], cls[1]))
+
+    class V(ast.NodeVisitor):
+        def visit_Assign(self, node):
+            cls = _classify(node.value, fresh_self_calls)
+            for t in node.targets:
+                add_target(t, False, cls)
+
+        def visit_AnnAssign(self, node):
+            if node.value is not None:
+                add_target(node.target, False, _classify(node.value, fresh_self_calls))
+
+        def visit_AugAssign(self, node):
+            add_target(node.target, True, _classify(node.value, fresh_self_calls))
+
+        def visit_For(self, node):
+            add_target(node.target, False, ('unknown', _names(node.iter)))
+            for x in node.body + node.orelse:
+                self.visit(x)
+
+        def visit_With(self, node):
+            for it in node.items:
+                if it.optional_vars is not None:
+                    add_target(it.optional_vars, False, _classify(it.context_expr, fresh_self_calls))
+            for x in node.body:
+                self.visit(x)
+
+        def visit_NamedExpr(self, node):
+            add_target(node.target, False, _classify(node.value, fresh_self_calls))
+
+        def visit_FunctionDef(self, node):
+            raise Unsupported('nested function in ' + fn.name)
+
+        def visit_Lambda(self, node):
+            return
+    for st in strip_doc(fn.body):
+        V().visit(st)
+    return out
+
+
+def _lean_effects(name, rows, doc, ids):
+    def nid(n):
+        if n not in ids:
+            ids[n] = len(ids)
+        return ids[n]
+
+    def rhs(k, ns):
+        lst = '[' + ', '.join(str(nid(n)) for n in ns) + ']'
+        return {'stored': '.stored', 'fresh': '.fresh', 'view': f'.view {lst}', 'unknown': f'.unknown {lst}'}[k]
+    lines = []
+    for t, ip, k, ns in rows:
+        what = ('in place ' if ip else '') + k + (' ' + ' '.join(ns) if ns else '')
+        lines.append(f'⟨{nid(t)}, {"true" if ip else "false"}, {rhs(k, ns)}⟩' + f'   -- {t}: {what}')
+    body = '\n   '.join((ln.split('   --')[0] + (',' if i < len(lines) - 1 else '') + '   --' + ln.split('   --')[1])
+                        for i, ln in enumerate(lines))
+    return f'/-- {doc} -/\ndef {name} : List HdVerif.Effects.Stmt :=\n  [{body}\n  ]'
+
+
+def _returns(fn):
+    return sorted({n for r in ast.walk(fn) if isinstance(r, ast.Return) and r.value is not None for n in _names(r.value)})
+
+
+def build_T8h(tree):
+    """Effect summaries of the three functions a segmentation read runs through: `Segmentation._get_pixels_by_seg_frame`
+    (seg/sop.py), `_Image._get_pixels_by_frame` and `_CombinedPixelTransform.__call__` (image.py, read from the same tree):
+    which statements rebind a name and which write in place, and what each right-hand side may share memory with.
+    `self._get_pixels_by_frame(...)` is classed as returning a new array; the table of that function shows it
+    (theorem `frame_loop_returns_new_array`)."""
+    import os
+    fn = _seg_frame(tree)
+    repo = os.environ.get('HD_REPO', '/repo')
+    itree = ast.parse(open(os.path.join(repo, 'src', 'highdicom', 'image.py')).read())
+    f1 = find_func(itree, '_Image._get_pixels_by_frame')
+    f2 = find_func(itree, '_CombinedPixelTransform.__call__')
+    ids = {'self': 0}
+    t0 = _lean_effects('segReadEffects', _effects(fn, fresh_self_calls=('self._get_pixels_by_frame',)),
+                       'assignments of `Segmentation._get_pixels_by_seg_frame` (source order)', ids)
+    t1 = _lean_effects('frameLoopEffects', _effects(f1), 'assignments of `_Image._get_pixels_by_frame` (source order)', ids)
+    t2 = _lean_effects('frameTransformEffects', _effects(f2), 'assignments of `_CombinedPixelTransform.__call__` (source order)', ids)
+    ret1 = _returns(f1)
+    for n in ret1:
+        if n not in ids:
+            ids[n] = len(ids)
+    names = sorted(ids, key=ids.get)
+    t3 = '/-- names occurring in the `return` statements of `_get_pixels_by_frame` -/\ndef frameLoopReturns : List Nat := [' + \
+        ', '.join(str(ids[n]) for n in ret1) + ']'
+    t4 = '/-- the numbering of the names (index = number) -/\ndef effectNames : List String :=\n  [' + \
+        ', '.join('"' + n + '"' for n in names) + ']'
+    return '\n\n'.join([t0, t1, t2, t3, t4]), span_sha(strip_doc(fn.body)) + span_sha(strip_doc(f1.body))[:8] + \
+        span_sha(strip_doc(f2.body))[:8]
+
+
+TARGETS['T8h'] = {'file': 'seg/sop.py', 'build': build_T8h, 'imports': ['HdVerif.Model.Effects']}
